@@ -95,4 +95,5 @@ def extra_stage(rep, tier, seed, scripts, solo, broken):
                                                 'report': reps[0], 'reports': len(reps), 'seed': seed,
                                                 'scripts': [{'id': s2, 'script': l2} for s2, l2 in tuse[:GROUP * 2]]})
         out.append((p, 'unsynchronised access to shared library state: ' + (re.search(r'WARNING: ThreadSanitizer: ([^\n]*)', reps[0]).group(1) if re.search(r'WARNING: ThreadSanitizer: ([^\n]*)', reps[0]) else 'report'), True))
+    out += task_stress(rep, ID, tier, 'thread')
     return out
